@@ -114,7 +114,9 @@ fn precompute_problem(
     let max_num_skipped_x = skippable_participants.iter().filter(|x| **x).count();
     // Calculate adjacency matrix size to allocate 1D-Arrays
     let m = courses.iter().map(|c| c.num_max).sum();
-    let n = m + max_num_skipped_x;
+    // There must be a row for every participant, even if there are fewer course places than participants
+    // (the subproblem solver detects that case and reports it as unsolvable)
+    let n = std::cmp::max(m + max_num_skipped_x, participants.len());
 
     // Generate course_map, inverse_course_map and madatory_y from course list
     let mut course_map = ndarray::Array1::<usize>::zeros([m]);
